@@ -435,7 +435,7 @@ func rawUpgradePath(addr, host, path, token, connection string) (net.Conn, *bufi
 }
 
 func TestC08Failures(t *testing.T) {
-	vlib.SetRule("C08", "TestC08Failures", "failure matrix on a real 2-node cluster with a drawn proxy timeout of 150-400 ms, local and forwarded paths, Go SDK and agent upstreams: no endpoint determinable (IP / dot-less Host, no header) -> 400; endpoint without upstream -> 502; upstream's node killed just before the request -> 502; upstream closes the stream without answering -> 502; upstream aborts in the middle of a response body (with or without Content-Length) -> the client sees a failed transfer, never a complete well-formed response of the fragment; upstream slower than the timeout -> 504 not earlier than the timeout and within the deadline; protocol upgrade with the token spelt websocket / WebSocket / WEBSOCKET held open for longer than the timeout -> still echoing afterwards; never a 2xx, never a hang; every case is non-trivial")
+	vlib.SetRule("C08", "TestC08Failures", "failure matrix on a real 2-node cluster with a drawn proxy timeout of 150-400 ms, local and forwarded paths, Go SDK and agent upstreams: no endpoint determinable (IP / dot-less Host, no header) -> 400; endpoint without upstream -> 502; upstream's node killed just before the request -> 502; upstream closes the stream without answering -> 502; upstream aborts in the middle of a response body (with or without Content-Length) -> the client sees a failed transfer, never a complete well-formed response of the fragment; upstream slower than the timeout -> 504 not earlier than the timeout and within the deadline; protocol upgrade with the token spelt websocket / WebSocket / WEBSOCKET and Connection: Upgrade / upgrade / 'keep-alive, Upgrade' held open for longer than the timeout -> still echoing afterwards; never a 2xx, never a hang; every case is non-trivial")
 	vlib.Run(t, "C08", func(c *vlib.Case) {
 		fail := c.OneOf("failure", "no-endpoint", "no-upstream", "node-killed", "closes-early", "aborts-mid-body", "slow", "upgrade")
 		// the short timeout only where the timeout itself is under test; a loaded
@@ -572,10 +572,13 @@ func TestC08Failures(t *testing.T) {
 				_ = brw.Flush()
 				_, _ = io.Copy(conn, brw)
 			}
-			conn, br, status, err := rawUpgrade(entry.ProxyAddr(), "e1.piko.test", token)
+			// Connection is a token list: browsers send "keep-alive, Upgrade"
+			connHdr := c.OneOf("connectionHeader", "Upgrade", "upgrade", "keep-alive, Upgrade", "Upgrade, keep-alive")
+			conn, br, status, err := rawUpgradePath(entry.ProxyAddr(), "e1.piko.test", "/ws", token, connHdr)
 			if err != nil || status != 101 {
-				c.Fatalf("C08: upgrade (%s) through %s failed: status=%d err=%v", token, entry.ID, status, err)
+				c.Fatalf("C08: upgrade (%s, Connection: %s) through %s failed: status=%d err=%v", token, connHdr, entry.ID, status, err)
 			}
+			token = token + " with Connection: " + connHdr
 			defer conn.Close()
 			echo := func(msg string) error {
 				if _, err := conn.Write([]byte(msg)); err != nil {
